@@ -56,7 +56,7 @@ class Program:
         self.ctx = ctx
         self.sr = ctx.sr
         self.rng = rng
-        self.sym = sym or rng.choice(gen.SYMS5)
+        self.sym = sym or gen.pick_sym(rng)
         self.ferm = rng.random() < 0.5 if fermionic is None else fermionic
         self.dtype = dtype
         self.vals = gen.Values(rng, values, dtype)
